@@ -219,9 +219,9 @@ def run(ctx):
     thorough = ctx.tier == "thorough"
     rig = _RIG = cl.Rig(ctx)
     rng = ctx.rng
-    n_cfg = 100 if thorough else 30
-    n_sched = 24 if thorough else 6          # plain scheduled runs per configuration (forked workers)
-    n_real = 12 if thorough else 2
+    n_cfg = 200 if thorough else 60
+    n_sched = 60 if thorough else 20         # plain scheduled runs per configuration (forked workers)
+    n_real = 20 if thorough else 4
     ctx.rule = ("cubes of both types with 3..12 sub-cubes (1-3 dimensions, each with 0-2 extra axes, extents incl. 1; N 1..8; "
                 "extents 2-3; commons frequent/rare; facts with NaN, 1 or 2 columns; weights with NaN) x aggregates {count, valid_count, "
                 "sum, mean} (+ {stddev, quantile, min, max, covariance, corrcoef} for the array cube) singly, 2-4 together and all "
@@ -385,12 +385,18 @@ def replay(ctx, path):
     ser = cl.out_sig(rig.calculate(rig.cube(cfg), rig.funcs(cfg), "serial"))
     ctx.evaluations += 1
     ctx.nontrivial.add(1)
-    try:
-        sig = run_mode(rig, cfg, run)[0]
-        bad = sig != ser
-        what = "pooled output still differs from the serial output"
-    except Exception as e:
-        bad, what = True, "pooled run raises %r" % (e,)
+    bad, what = False, ""
+    # a scheduled run is a function of (cfg, pool size, seed, p_switch); the real pool is not: try it repeatedly
+    for attempt in range(300 if run.get("mode") == "real" else 1):
+        try:
+            sig = run_mode(rig, cfg, run)[0]
+            bad = sig != ser
+            what = "pooled output still differs from the serial output"
+        except Exception as e:
+            bad, what = True, "pooled run raises %r" % (e,)
+        ctx.evaluations += 1
+        if bad:
+            break
     print("replay:", "DIFFERS" if bad else "equal", run)
     ctx.samples.append({"cfg": cfg, "run": run})
     if bad:
